@@ -543,9 +543,11 @@ func callSSA(i *interpreter, caller *frame, callpos token.Pos, fn *ssa.Function,
 			if X != nil && X.res != nil {
 				X.res.intrSet[name] = true
 			}
-			return in(fr, args)
-		}
-		if in := harnessAPI[fn.Name()]; in != nil && fn.Blocks == nil {
+			if r := in(fr, args); r != (notHandled{}) {
+				return r
+			}
+			// the intrinsic declined (e.g. all operands concrete): interpret the body
+		} else if in := harnessAPI[fn.Name()]; in != nil && fn.Blocks == nil {
 			return in(fr, args)
 		}
 		if ext := externals[name]; ext != nil {
